@@ -55,6 +55,7 @@ type FuncContract struct {
 	Terminates bool // every loop must carry a decreases clause
 	Decreases  CExpr // measure for (self-)recursive calls
 	DecSrc     string
+	Locals     []string // named local variables (incl. parameters) in declaration order when the contract was written
 }
 
 type LemmaStep struct {
@@ -92,7 +93,7 @@ func NewContractSet() *ContractSet {
 	return &ContractSet{Specs: map[string]*SpecFunc{}, Funcs: map[string]*FuncContract{}, Lemmas: map[string]*Lemma{}}
 }
 
-var kwRe = regexp.MustCompile(`^(pure|func|lemma|requires|ensures-bounded|ensures|opaque|replay|loop|invariant|decreases|axiom|def|use|assert|table|literal|note|terminates)\b`)
+var kwRe = regexp.MustCompile(`^(pure|func|lemma|requires|ensures-bounded|ensures|opaque|replay|locals|loop|invariant|decreases|axiom|def|use|assert|table|literal|note|terminates)\b`)
 var labelRe = regexp.MustCompile(`^@([A-Za-z0-9_\-/.]+):\s*`)
 
 type rawLine struct {
@@ -288,6 +289,11 @@ func (cs *ContractSet) LoadContractFile(path, pkgPath string, trusted bool) erro
 			default:
 				return fmt.Errorf("%s:%d: %s outside func/lemma", path, r.line, r.kw)
 			}
+		case "locals":
+			if curFunc == nil {
+				return fmt.Errorf("%s:%d: locals outside func", path, r.line)
+			}
+			curFunc.Locals = strings.Fields(r.rest)
 		case "terminates":
 			if curFunc == nil {
 				return fmt.Errorf("%s:%d: terminates outside func", path, r.line)
